@@ -20,7 +20,7 @@ def main():
     for n in names:
         d = os.path.join(V, "seeded", n)
         prop = n.split("-")[0]
-        sh("git -C %s checkout -q -- ." % WT)
+        sh("git -C %s reset -q --hard" % WT)
         sh("git -C %s checkout -q --detach main" % WT)   # current /repo HEAD (includes the fix: commits)
         r = sh("git -C %s apply %s/patch.diff" % (WT, d))
         if r.returncode:
@@ -30,7 +30,7 @@ def main():
             continue
         env = dict(os.environ, VERIF_REPO=WT, VERIF_SCRATCH="/tmp/mut_build")
         r = subprocess.run([os.path.join(V, "check"), prop], text=True, capture_output=True, env=env, cwd=V)
-        sh("git -C %s checkout -q -- ." % WT)
+        sh("git -C %s reset -q --hard" % WT)
         viol = [l for l in r.stdout.split("\n") if l.startswith("VIOLATION")]
         failed = [l.strip() for l in r.stdout.split("\n") if l.strip().startswith("failed obligation")]
         units = re.findall(r"\[%s\] (\S+)\s+violation" % prop, r.stdout)
